@@ -1,6 +1,7 @@
 package main
 
 import (
+	"regexp"
 	"sort"
 	"strings"
 
@@ -14,7 +15,7 @@ func init() {
 		Run:   checkC07,
 		Explanation: "C07 quantifies over schedules; what is decided is its structural necessary condition: every way the code can turn a standing claim into false (other than Stop) carries a justification that cannot arise in fault-free operation. " +
 			"(R1) every call site of a function that may demote lies, on every path, behind an edge carrying one of the enumerated justifications: an own store operation / validation / encoding step of this activation failed (error non-nil), the validation verdict was negative, the health-failure threshold was reached, the grace timer fired (C11-R3), or a watch event names another instance AND its revision is greater than the instance's own latest revision; a failed acquisition (Create) is NOT a justification. " +
-			"(R2) the revision a leader presents on refresh cannot be overwritten with an observed one (C01-R4, shared). (R3) the TTL >= 3 x heartbeat margin is enforced by validation (C16, shared); (R4) the per-attempt time-out is never below H/2 and (R5) refreshes are issued every H (C03-R1/R8, shared); (R6) the refresh loop of a term ends with that term, so that two refreshers of the same instance never collide (the loser of a collision sees a revision conflict, a permanent error, and would demote a healthy leader; C03-R9, shared).",
+			"(R2) the revision a leader presents on refresh cannot be overwritten with an observed one (C01-R4, shared). (R3) the TTL >= 3 x heartbeat margin is enforced by validation (C16, shared); (R4) the per-attempt time-out is never below H/2 and (R5) refreshes are issued every H (C03-R1/R8, shared); (R6) the refresh loop of a term ends with that term, so that two refreshers of the same instance never collide (the loser of a collision sees a revision conflict, a permanent error, and would demote a healthy leader; C03-R9, shared); (R7) the periodic validation's per-read time-out is never below H/2 either, so a store that is healthy by the heartbeat's standard cannot fail two validations in a row.",
 		NotDecided: []string{"that the record never lapses under latencies below H/2 (timing: TTL vs. refresh period)", "that no justification literal can become true in fault-free runs because of message reordering inside the NATS client"},
 		Assumptions: []string{"in fault-free operation Update/Get/validation/Marshal of a leader do not fail and health checks are healthy"},
 		Rules: map[string]string{
@@ -22,6 +23,7 @@ func init() {
 			"R2": "see C01-R4",
 			"R3": "see C16-R1 (TTL < 3*H is rejected)",
 			"R5": "the refresh ticker's period is cfg.HeartbeatInterval (C03-R8, shared): together with R3 the record is refreshed three times per TTL",
+			"R7": "in every loop that calls the validation function periodically, the context passed to it comes from context.WithTimeout(_, d) with d == max(K, H/2) for a constant K (if-chain or builtin max): a read answered within H/2 never counts as a validation failure",
 			"R6": "shared with C03-R9: the refresh loop of a term runs under that term's context (no refresher of an earlier term survives into a later term and collides with it)",
 			"R4": "the refresh attempt's time-out expression is max(H/2, 1s) (C03-R1, shared): never below H/2, so latencies below H/2 cause no refresh failure",
 		},
@@ -224,6 +226,8 @@ func checkC07(c *Ctx) {
 	refreshPeriodRule(c, "R5")
 	// R6: shared with C03-R9: no second refresh loop of an earlier term collides with this term's
 	termLoopRule(c, "R6")
+	// R7: the background validation gives the store as long as the heartbeat does
+	validationTimeoutRule(c, "R7")
 	// R2 shared with C01-R4
 	ownRevisionRule(c, "R2")
 	// R3 shared with C16-R1: the TTL margin cube is in the reject table
@@ -244,4 +248,90 @@ func uniqStrings(ss []string) []string {
 		}
 	}
 	return out
+}
+
+
+// validationTimeoutRule (C07-R7): the periodic validation's read time-out is max(K, H/2).
+func validationTimeoutRule(c *Ctx, rule string) {
+	m := c.M
+	vf := m.ValidateFn()
+	if vf == nil {
+		c.undecided(rule, "validation function", nil, "not found")
+		return
+	}
+	H := m.cfgPath("HeartbeatInterval")
+	half := "(" + H + " / 2)"
+	n := 0
+	for _, f := range m.Funcs {
+		if f.Parent() != nil || len(cfgLoops(f)) == 0 {
+			continue
+		}
+		for _, g := range m.bodyFns(f) {
+			eachInstr(g, func(in ssa.Instruction) {
+				call, ok := in.(*ssa.Call)
+				if !ok || call.Call.StaticCallee() != vf || !(inLoop(in.Block()) || g != f) {
+					return
+				}
+				// the context argument and the WithTimeout call it comes from
+				for _, a := range call.Call.Args {
+					if !isNamed(a.Type(), "context", "Context") {
+						continue
+					}
+					chain, _ := m.ctxAncestors(a)
+					var wt *ssa.Call
+					for _, k := range chain {
+						if k.Call.StaticCallee().Name() == "WithTimeout" && wt == nil {
+							wt = k
+						}
+					}
+					n++
+					key := "periodic validation read time-out in " + shortFn(g)
+					if wt == nil {
+						c.viol(rule, key, call, "the validation read is not bounded by a context.WithTimeout created for it")
+						continue
+					}
+					g0, changed := m.gatedInvariant(wt.Call.Args[1])
+					got := sortSelect(g0)
+					if changed != "" {
+						got = "modified inside the loop: " + changed
+					}
+					ok := false
+					// accepted: max(K, H/2) as builtin max or as an if-chain in either orientation
+					re := regexp.MustCompile(`^call builtin\.max\((\d+), ` + regexp.QuoteMeta(half) + `\)$|^call builtin\.max\(` + regexp.QuoteMeta(half) + `, (\d+)\)$`)
+					if re.MatchString(got) {
+						ok = true
+					}
+					sel := regexp.MustCompile(`^select\[(.*)\]$`).FindStringSubmatch(got)
+					if sel != nil {
+						parts := strings.Split(sel[1], " | ")
+						if len(parts) == 2 {
+							var k string
+							halfCase, constCase := "", ""
+							for _, p := range parts {
+								if strings.HasPrefix(p, half+" if ") {
+									halfCase = strings.TrimPrefix(p, half+" if ")
+								} else if mm := regexp.MustCompile(`^(\d+) if (.*)$`).FindStringSubmatch(p); mm != nil {
+									k, constCase = mm[1], mm[2]
+								}
+							}
+							if k != "" && halfCase != "" {
+								// H/2 is chosen exactly when K < H/2 (or K <= H/2), the constant otherwise
+								hc := []string{"{(" + k + " < " + half + ")}", "{(" + k + " <= " + half + ")}"}
+								cc := []string{"{(" + half + " <= " + k + ")}", "{(" + half + " < " + k + ")}"}
+								for i := range hc {
+									if halfCase == hc[i] && constCase == cc[i] {
+										ok = true
+									}
+								}
+							}
+						}
+					}
+					c.check(ok, rule, key, wt, "time-out expression %s; required max(K, %s) for a constant K: with a fixed time-out below H/2 (H > 2K) a store that answers within H/2 - healthy by the heartbeat's standard - fails every validation, and two failures demote the leader", got, half)
+				}
+			})
+		}
+	}
+	if n == 0 {
+		c.undecided(rule, "periodic validation", firstInstr(vf), "no loop calling %s found", shortFn(vf))
+	}
 }
